@@ -40,6 +40,7 @@ type driver struct {
 	mu          sync.Mutex
 	raceStats   map[string]any
 	spsaWorkers int
+	forceGMP1   bool
 }
 
 func envInt(name string, def int) int {
@@ -400,6 +401,9 @@ func (d *driver) check(prop, tier string) int {
 		go func(i int) {
 			defer wg.Done()
 			gmp := []int{1, 4, 16}[i%3]
+			if d.forceGMP1 {
+				gmp = 1
+			}
 			bin := d.self
 			if sb := os.Getenv("VERIF_SPSA_BIN"); sb != "" && ((tier == "thorough" && i%2 == 1) || (tier == "quick" && i%8 == 7)) {
 				bin = sb
@@ -685,16 +689,35 @@ func (d *driver) writeReplay(prop string, rf *ReplayFile) string {
 // determinism runs the first n seeds of the check twice in separate processes
 // under different GOMAXPROCS and compares the per-run history hashes.
 func (d *driver) determinism(prop, tier string, master uint64, n int) int {
+	if code, diverged := d.determinismAt(prop, tier, master, n, 1, 16); !diverged {
+		return code
+	}
+	// The code under test may make something observable depend on how its own
+	// goroutines are scheduled between two quiescent points (e.g. a writer that
+	// batches whatever lines happen to be queued). Such code is explored with
+	// one OS thread per worker, where the Go scheduler's order is reproducible.
+	if code, diverged := d.determinismAt(prop, tier, master, n, 1, 1); diverged {
+		fmt.Fprintf(os.Stderr, "HARNESS: %s is not deterministic across processes even on one thread; refusing to report\n", prop)
+		return 2
+	} else if code != 0 {
+		return code
+	}
+	fmt.Printf("note: histories differ between GOMAXPROCS 1 and 16 but are reproducible on one thread; all workers run with GOMAXPROCS=1\n")
+	d.forceGMP1 = true
+	return 0
+}
+
+func (d *driver) determinismAt(prop, tier string, master uint64, n, gmpA, gmpB int) (code int, diverged bool) {
 	job := Job{Property: prop, Tier: tier, Master: master, Worker: 0, Workers: 1, MaxRuns: n, Hashes: true, BudgetS: 40}
 	var a, b *workerOut
 	var wg sync.WaitGroup
 	wg.Add(2)
-	go func() { defer wg.Done(); a = d.spawn(job, 1) }()
-	go func() { defer wg.Done(); b = d.spawn(job, 16) }()
+	go func() { defer wg.Done(); a = d.spawn(job, gmpA) }()
+	go func() { defer wg.Done(); b = d.spawn(job, gmpB) }()
 	wg.Wait()
 	if a.summary == nil || b.summary == nil {
 		// a crash here is handled by the main fan-out (same seeds are run again)
-		return 0
+		return 0, false
 	}
 	ha, hb := map[uint64]string{}, map[uint64]string{}
 	for _, r := range a.runs {
@@ -705,11 +728,11 @@ func (d *driver) determinism(prop, tier string, master uint64, n int) int {
 	}
 	for run, h := range ha {
 		if h2, ok := hb[run]; ok && h2 != h {
-			fmt.Fprintf(os.Stderr, "HARNESS: run %d of %s is not deterministic across processes (history %s vs %s); refusing to report\n", run, prop, h, h2)
-			return 2
+			fmt.Fprintf(os.Stderr, "note: run %d of %s differs between two processes (GOMAXPROCS %d and %d): history %s vs %s\n", run, prop, gmpA, gmpB, h, h2)
+			return 0, true
 		}
 	}
-	return 0
+	return 0, false
 }
 
 func (d *driver) replay(path string) int {
